@@ -98,6 +98,8 @@ def build_registry(mods):
     reg.models[common.peek] = _texts.m_peek
     from . import textio as _textio
     _textio.install(reg)
+    from . import charclass as _charclass
+    reg.models[common.all_chars] = _charclass.m_all_chars
     reg.models[common.sum_prefix] = _models.q_sum_prefix
     reg.models[common.count_prefix] = _models.q_count_prefix
     reg.models[common.nat_of_str] = _models.q_nat_of_str
